@@ -8,6 +8,7 @@ reported lines cover every node that lies on a cycle; the list is empty iff the 
 import GontainerModel.Lemmas.Graph
 import GontainerModel.Lemmas.DepGraph
 import GontainerModel.Model.Output
+import GontainerModel.Lemmas.ParamFuel
 namespace GM.C07
 open GM GM.Graph GM.Output
 
@@ -86,5 +87,27 @@ example : ConfigDep demo (.service "a") (.service "b") :=
   ConfigDep.dec (s := { name := "a", tags := [{ name := "t", priority := 0 }] }) (tg := { name := "t", priority := 0 })
     (d := { tag := "t", decorator := "f", raw := "f", args := [{ code := "", raw := .null, depServices := ["b"] }] }) (i := 0)
     (by simp [demo]) (by simp) (by simp [demo, List.zipIdx]) rfl (Or.inl (by simp))
+
+/-! ### parameter evaluation terminates -/
+
+/-- **an accepted container's parameter evaluation terminates** (runtime model): when the `%reference%` relation between
+declared parameters is acyclic — stated as the existence of a rank that decreases along it — evaluating parameter `id`
+recurses at most `rank id` levels deep: the result (value or error) and the state left behind are the same for every
+recursion budget from `2·rank + 3` on, so the budget of the model never decides the answer.
+(Partial in one respect, named here: that an acyclic compiled graph yields such a rank is not proved in Lean; the
+correspondence compares `GetParam` of accepted containers with the model under its fixed budget.) -/
+theorem param_eval_terminates_partial (p : Runtime.Prog) (rk : String → Nat) (hr : Runtime.Ranked p rk) (id : String)
+    (st : Runtime.St) (f g : Nat) (hf : Runtime.bound rk id ≤ f) (hg : Runtime.bound rk id ≤ g) :
+    Runtime.getParam f p st id = Runtime.getParam g p st id :=
+  Runtime.getParam_stable p rk hr id st f g hf hg
+
+-- non-vacuity: a two-level chain of parameters is ranked
+def demoParams : Runtime.Prog :=
+  { out := { params := [{ name := "a", raw := .str "%b%x", code := "", dependsOn := ["b"] },
+                        { name := "b", raw := .int 1, code := "", dependsOn := [] }] },
+    imports := [], fns := [], env := [] }
+example : Runtime.Ranked demoParams (fun n => if n = "a" then 1 else 0) := by
+  unfold Runtime.Ranked
+  decide
 
 end GM.C07
